@@ -1,6 +1,7 @@
 (* C12 — Server-issued identifiers are unique and only move forward.
    Only statements, each closed by [exact] of a lemma proved in Proofs/, and Print Assumptions. *)
 From DV Require Import Base.Prelude Model.Persist Model.IDs Model.IDsR Proofs.Persist Proofs.IDs Proofs.IDsR Gen.Consts.
+From DV Require Import Gen.IdLocks Model.IdLocks Proofs.IdLocks.
 Local Open Scope N_scope.
 
 (* ---- mutation ids ---- *)
@@ -184,6 +185,45 @@ Theorem C12_label_fresh_index_kill_refuted :
   l_up s' = true /\ In 1000 (l_present s') /\ snd (rstep s' (RE (LAlloc 1 1))) = Some (6, 6).
 Proof. exact label_fresh_index_kill_refuted. Qed.
 Print Assumptions C12_label_fresh_index_kill_refuted.
+
+(* ---- Round 4: the atomicity assumption of the machines, extracted from the source ---- *)
+(* Gen/IdLocks.v is rewritten from /repo on every run (harness/cmd/gen/gen_idlocks.go): for
+   repoManager.newInstanceID / newRepoID / newVersionID / newUUID, repoT.newMutationID and labelmap
+   newLabel / newLabels / updateMaxLabel / updateBlockMaxLabel, every control-flow path as the sequence of
+   mutex calls, accesses of the counter fields and persisting Puts.  On EVERY path of EVERY site: each
+   write of a counter happens while the site's mutex is held exclusively, each read while it is held; for
+   the sites the machines treat as one atomic event (all but the two update functions) reads are under the
+   exclusive lock too and all accesses lie in ONE critical section; where the Put is part of the event
+   (newInstanceID, newMutationID and all labelmap sites) the Put and the helper's reads are in that
+   section as well.  Removing a Lock, narrowing the section, moving an access or the Put out of it, or
+   downgrading Lock to RLock changes Gen/IdLocks.v and this statement stops computing to true. *)
+Theorem C12_id_counters_rmw_under_mutex : forallb path_ok id_site_paths = true.
+Proof. exact id_paths_ok. Qed.
+Print Assumptions C12_id_counters_rmw_under_mutex.
+
+(* the nine sites are in the table, each with a path that modifies its counter *)
+Theorem C12_id_sites_extracted : sites_present id_site_paths = true.
+Proof. exact id_sites_present. Qed.
+Print Assumptions C12_id_sites_extracted.
+
+(* the sites whose persisting Put is guarded by the mutex.  newRepoID / newVersionID / newUUID are NOT
+   among them: they call putNewIDs after releasing idMutex (the machine of Model.Persist has the Put as a
+   separate write for that reason; two concurrent allocators may Put their snapshots out of order). *)
+Theorem C12_persist_inside_section : persist_guarded id_site_paths = expected_persist_guarded.
+Proof. exact id_persist_guarded. Qed.
+Print Assumptions C12_persist_inside_section.
+
+(* what the obligation means, for any table: a write of a guarded location at position k of a path is
+   made with the mutex held exclusively *)
+Theorem C12_under_mutex_sound : forall mu locs strict evs ex sh k l,
+  under_mutex mu locs strict evs ex sh = true -> nth_error evs k = Some (IWrite l) -> smem l locs = true ->
+  held_at mu evs k ex = true.
+Proof. exact under_mutex_write_held. Qed.
+Print Assumptions C12_under_mutex_sound.
+
+(* non-vacuity: paths with a narrowed, removed or split critical section, or a Put outside it, fail *)
+Example C12_narrowed_lock_fails : narrowed_paths_fail.
+Proof. exact narrowed_lock_fails. Qed.
 
 (* Non-vacuity with the constants of the source: stride 100, first id one billion; an allocation
    sequence that crosses the stride boundary, dies exactly there after its write, restarts. *)
